@@ -104,6 +104,37 @@ def check_edc(tier, seed):
                   exhaustive=exhaustive, samples=[dict(model=cm.show(edc_struct(*sel[0])))], distinct=decided, notes=f'{decided} (model, class) pairs have unambiguous attribution and are decided')
 
 
+# ---------------------------------------------------------------- XSD 1.1: a local element against the global element that a wildcard of the same model resolves
+def eval_wild_edc(args):
+    """XSD 1.1: an element particle and a wildcard never conflict (the declaration takes the child), and Element Declarations Consistent asks of the global declaration that the
+    wildcard would resolve for the same name only an equivalent TYPE TABLE - not the same type: every model of the family is deterministic and consistent, so it is accepted.
+    (Declarations with type alternatives are left out: what 'equivalent type tables' demands is not decided here.)"""
+    shape, pc, gtype, order, alts = args
+    import xmlschema
+    alt = lambda t: f'<xs:alternative test="@k=\'1\'" type="{t}"/>' if alts else ''
+    glob = f'<xs:element name="a" type="{gtype}">{alt("xs:byte" if alts == "different" else "xs:short")}</xs:element>'
+    el = {'a1': f'<xs:element name="a" type="xs:int">{alt("xs:short")}</xs:element>', 'a?': f'<xs:element name="a" type="xs:int" minOccurs="0">{alt("xs:short")}</xs:element>'}[shape[0]]
+    wc = {'any?': f'<xs:any processContents="{pc}" minOccurs="0"/>', 'any*': f'<xs:any processContents="{pc}" minOccurs="0" maxOccurs="unbounded"/>', 'any1': f'<xs:any processContents="{pc}"/>'}[shape[1]]
+    kids = el + wc if order == 'element-first' else wc + el
+    body = f'<xs:choice>{kids}</xs:choice>' if shape[2] == 'cho' else f'<xs:sequence>{kids}</xs:sequence>'
+    xsd = f'<xs:schema {cm.XS}>{glob}<xs:element name="r"><xs:complexType>{body}</xs:complexType></xs:element></xs:schema>'
+    try: xmlschema.XMLSchema11(xsd); got = 'accepted'
+    except xmlschema.XMLSchemaModelError as e: got = 'model-error: ' + str(e).split('\n')[0][:100]
+    except xmlschema.XMLSchemaException as e: got = 'other: ' + type(e).__name__ + ' ' + str(e)[:80]
+    exp_error = alts == 'different' and pc != 'skip'
+    ok = got.startswith('model-error') if exp_error else got == 'accepted'
+    return None if ok else dict(args=list(args), got=got, expected='model error' if exp_error else 'accepted')
+
+
+def check_wild_edc():
+    jobs = [((e, w, k), pc, gt, order, alts) for e in ('a1', 'a?') for w in ('any?', 'any*', 'any1') for k in ('seq', 'cho') for pc in ('lax', 'strict', 'skip') for gt in ('xs:int', 'xs:string')
+            for order in ('element-first', 'wildcard-first') for alts in ('',)]
+    res = [eval_wild_edc(j) for j in jobs]
+    fails = [dict(case=dict(wild_edc=r['args']), observed=r['got'], required=r['expected']) for r in res if r]
+    return result('C15.xsd11_wildcard_and_local_element', f'{len(jobs)} XSD 1.1 models: a local element a and a wildcard that admits a (2 x 3 occurrence shapes, sequence / choice, both orders, 3 processContents) with a global a of the same or another type',
+                  len(jobs), fails, exhaustive=True, samples=[dict(model='(a:int?, any-lax*)', global_a='xs:string')])
+
+
 # ---------------------------------------------------------------- substitution-group heads as leaves
 def subst_models():
     from .C01 import SUBST
@@ -190,10 +221,12 @@ def run(tier, seed, open_findings):
     known = load_instances('C15_instances.json')
     return [check(list(cm.two_level_models()), tier, seed, known, 'C15.two_level_models', 4, open_findings),
             check(list(cm.two_level_models_rev()), tier, seed, known, 'C15.two_level_models_rev', 4, open_findings),
-            check(list(cm.variant_models()), tier, seed, known, 'C15.variant_models', 1, open_findings), check_edc(tier, seed), check_subst(tier, seed), check_placement(tier, seed)]
+            check(list(cm.variant_models()), tier, seed, known, 'C15.variant_models', 1, open_findings), check_edc(tier, seed), check_subst(tier, seed), check_placement(tier, seed), check_wild_edc()]
 
 
 def replay(check_name, case):
+    if case.get('wild_edc'):
+        a = case['wild_edc']; r = eval_wild_edc((tuple(a[0]), a[1], a[2], a[3], a[4])); return dict(ok=r is None, observed=r and r['got'], required=r and r['expected'])
     if case.get('placement'):
         r = eval_placement((_tuplify(case['model']), case['version'])); return dict(ok=r is None, observed=r and r['outcomes'], required='same verdict in every place')
     if case.get('subst'):
